@@ -39,7 +39,9 @@ NS4 = {"http://a.org/": "", "http://b.org/": "weso-s", "http://c.org/": "shapes"
 def cases(draw):
     chan = draw(st.sampled_from(["nt", "nt", "tsv", "turtle_iter", "turtle", "rdflib", "sm", "endpoint", "ntfiles", "zip", "gz"]))
     nob = chan in ("turtle", "rdflib", "sm", "endpoint")
-    g = draw(gg.general(bnodes=not nob, lit_kinds=["word", "lang", "integer"] if chan == "endpoint" else None, max_stmts=22))
+    g = draw(gg.general(bnodes=not nob, lit_kinds=["word", "lang", "integer"] if chan == "endpoint" else None, max_stmts=22,
+                        quirks=draw(gg.quirk_set(allowed=tuple(gg.QUIRKS) + ("odd_class_names", "odd_class_names"), one_in=4))
+                        if chan not in ("endpoint", "sm") else []))
     cfg = draw(gg.switches())
     cfg["instances_report_mode"] = "mixed"
     case = {"g": g, "cfg": cfg, "chan": chan, "thr": draw(st.sampled_from([0, 0, 0.5, 1])), "fmt": draw(st.sampled_from(["ShEx", "ShEx", "Shacl"]))}
